@@ -350,6 +350,8 @@ func (h *hist) applyRestartOp(op hOp) error {
 		return h.applyParams(op)
 	case "pccall":
 		return h.applyPcCall(op, ((op.A%chainNAccts)+chainNAccts)%chainNAccts)
+	case "gasburst":
+		return h.applyGasBurst(op, ((op.A%chainNAccts)+chainNAccts)%chainNAccts)
 	}
 	err := h.apply(op)
 	if err == nil {
